@@ -259,6 +259,8 @@ where
     #[cfg(debug_assertions)]
     let mut brute_force_steps = (0..)
         .filter(|t_a| {
+            #[cfg(feature = "verif-hooks")]
+            crate::verif_hooks::tick("ros2::bw::rta_subchain::brute_force_steps");
             workload.iter().any(|cb|
                 // Negated conditions of Lemma 19.
                 if std::ptr::eq(*eoc, cb) {
